@@ -554,7 +554,7 @@ def check(ctx):
     cexe, mexe, proof_ok = build(ctx)
     rng = ctx.rng
     cases = load_corpus(0)
-    n = 1500 if ctx.quick() else 12000
+    n = 1500 if ctx.quick() else 50000
     encs = MODEL_ENCS
     for i in range(n):
         cases.append(gen_case(ctx, len(cases), encs, big=(i % 10 == 0)))
